@@ -116,6 +116,19 @@ def run(ctx, rep):
         rep.undecided('D2.root', fn, lp, 'no scalar root finder call found', construct='root finder')
         return
     b = br[0]
+    # tolerances: SciPy's defaults (xtol 2e-12, rtol 8.9e-16) or tighter; an explicit tolerance above 1e-8 (what the package's own
+    # vectorised finders promise) leaves roots that do not invert the conditional CDF where it is steep
+    from ..constfold import fold as _fold
+    for kw_, pos_ in (('xtol', 4), ('rtol', 5)):
+        te = kwarg(b, kw_, pos_)
+        if te is None:
+            continue
+        tv = _fold(prog, fn.module, te, fn.node)
+        if isinstance(tv, (int, float)) and not isinstance(tv, bool):
+            rep.check('D2.root', fn, b, tv <= 1e-8, f'{kw_} = {tv:g}', f'the root search is given {kw_} = {tv:g} (`{short(te, 40)}`): roots are resolved to about that much in u, '
+                      'so partial_derivative(percent_point(y, v), v) misses y by orders of magnitude more where the conditional CDF is steep', construct=f'root finder {kw_}')
+        else:
+            rep.undecided('D2.root', fn, b, f'the value of {kw_} (`{short(te, 40)}`) is not derived', construct=f'root finder {kw_}')
     fdef = None
     if b.args and isinstance(b.args[0], ast.Name):
         fdef = [d for d in defs if d.name == b.args[0].id]
